@@ -855,15 +855,20 @@ def rule_skip_condition(model):
                   for x in own_nodes(f.node)]:
         if not isinstance(x, ast.If):
             continue
-        lv = leaves(x.test)
+        test, skip_branch = x.test, x.body
+        if isinstance(test, ast.UnaryOp) and isinstance(test.op, ast.Not):
+            # `if not (html-quote and tainted): quote` -- the skip is the
+            # (empty) else branch
+            test, skip_branch = test.operand, x.orelse
+        lv = leaves(test)
         sel = [t for t in lv if isinstance(t, ast.Compare) and any(
             isinstance(c, ast.Constant) and c.value in ('html_quote',
                                                         'html-quote')
             for c in ast.walk(t))]
         if not sel:
             continue
-        # does this branch skip the quoting?  (body has no call)
-        skips = not any(isinstance(c, ast.Call) for s_ in x.body
+        # does this branch skip the quoting?  (no call in it)
+        skips = not any(isinstance(c, ast.Call) for s_ in skip_branch
                         for c in ast.walk(s_))
         if not skips:
             continue
